@@ -466,7 +466,7 @@ func TestC08(t *testing.T) {
 
 const c07Rule = "rapid draws of valid files (as C08) and, for each file, enumeration of: every bit of every block-trailing sync marker and of the header's marker, every bit of every snappy CRC, " +
 	"every bit of every compressed payload (at most 4096 sites per file, strided beyond), every bit of the magic, header rewrites (schema removed, codec removed, codec replaced by unknown names), " +
-	"a block count raised by one, every record index as the point where the callback fails (returning an ordinary error, io.EOF, io.ErrUnexpectedEOF or an error wrapping io.EOF); oracle: intact file -> the reference decode, nil error; sync / CRC / magic damage, missing schema, unknown codec -> non-nil error and only intact records before it; " +
+	"a block count raised by one, a complete nested read of the same file from inside the callback, every record index as the point where the callback fails (returning an ordinary error, io.EOF, io.ErrUnexpectedEOF or an error wrapping io.EOF); oracle: intact file -> the reference decode, nil error; sync / CRC / magic damage, missing schema, unknown codec -> non-nil error and only intact records before it; " +
 	"payload damage -> error exactly when the reference decompressor (compress/flate, snappy + CRC) rejects the damaged payload; no avro.codec -> same records as the null codec; " +
 	"callback error at k -> exactly k+1 callbacks and the identical error value; evaluations = sites; non-trivial = site in a block other than the first of a multi-block file, or callback failure at k > 0; distinct by (file hash, site)"
 
@@ -725,6 +725,44 @@ func runC07(c fileCase, col *stats.Collector) (bool, []string, error) {
 		}
 		if col != nil {
 			col.RecordKey(fileKey(b.file, my, 's'), k > 0)
+		}
+	}
+	// 7. a callback that itself reads a file (the same bytes, same codec) and then
+	// lets the outer read continue: both must deliver exactly their records
+	for k := 0; k < len(b.intact) && k < 3; k++ {
+		my := site
+		site++
+		if failure != nil || (c.Site >= 0 && my != c.Site) {
+			continue
+		}
+		counts["nested_read"]++
+		var outer, inner []spec.AbsVal
+		var innerErr error
+		perr := protect(func() error {
+			return avro.ReadFile(bytes.NewReader(b.file), reflect.New(b.typ).Elem().Interface(), func(val unsafe.Pointer, rb *avro.ResourceBank) error {
+				outer = append(outer, spec.Abs(b.ts, false, reflect.NewAt(b.typ, val).Elem()))
+				if len(outer)-1 == k {
+					inner, innerErr = readAbs(b.file, b.ts, b.typ, nil)
+				}
+				return nil
+			})
+		})
+		switch {
+		case perr != nil:
+			failure = fmt.Errorf("site %d (nested read inside the callback at record %d): outer read: %v", my, k, perr)
+		case innerErr != nil:
+			failure = fmt.Errorf("site %d (nested read inside the callback at record %d): inner read: %v", my, k, innerErr)
+		case len(outer) != len(b.intact) || len(inner) != len(b.intact):
+			failure = fmt.Errorf("site %d (nested read at record %d): outer delivered %d, inner %d, file holds %d", my, k, len(outer), len(inner), len(b.intact))
+		default:
+			if err := b.prefixOfIntact(outer); err != nil {
+				failure = fmt.Errorf("site %d (nested read at record %d): outer read: %v", my, k, err)
+			} else if err := b.prefixOfIntact(inner); err != nil {
+				failure = fmt.Errorf("site %d (nested read at record %d): inner read: %v", my, k, err)
+			}
+		}
+		if col != nil {
+			col.RecordKey(fileKey(b.file, my, 's'), multi)
 		}
 	}
 	labels := []string{"codec_" + b.codec}
